@@ -449,7 +449,7 @@ static void verifier_records(const Args &a) {
 // Rabin-type values: r and m - r have the same square, and everything is computed modulo m, so an accepted mutant is
 // tolerated iff it equals +-old modulo m (same square / same residue; DESIGN O2: these verifiers do not range-check).
 static void qr_systems(const Args &a) {
-	unsigned long ksz = a.thorough() ? 768 : 512;
+	unsigned long ksz = 512;
 	TMCG_SecretKey *secA = new TMCG_SecretKey("Alice", "alice@example.org", ksz), *secB = new TMCG_SecretKey("Bob", "bob@example.org", ksz);
 	TMCG_PublicKey *pubA = new TMCG_PublicKey(*secA), *pubB = new TMCG_PublicKey(*secB);
 	if (!pubA->check() || !pubB->check()) { printf("NOTE qr: generated keys do not pass check()\n"); return; }
@@ -465,8 +465,8 @@ static void qr_systems(const Args &a) {
 	};
 	size_t tb = 3;
 	{   // cut and choose on TMCG_Card stacks
-		std::vector<size_t> ns = a.thorough() ? std::vector<size_t>{2, 4} : std::vector<size_t>{3};
-		unsigned long kappa = a.thorough() ? 8 : 5;
+		std::vector<size_t> ns = a.thorough() ? std::vector<size_t>{2, 3} : std::vector<size_t>{3};
+		unsigned long kappa = a.thorough() ? 6 : 5;
 		for (size_t n : ns) for (int cyc = 0; cyc < 2; cyc++) {
 			SchindelhauerTMCG *T = new SchindelhauerTMCG(kappa, 2, tb);
 			TMCG_Stack<TMCG_Card> *s = new TMCG_Stack<TMCG_Card>, *s2 = new TMCG_Stack<TMCG_Card>, *vs = new TMCG_Stack<TMCG_Card>, *vs2 = new TMCG_Stack<TMCG_Card>;
